@@ -171,6 +171,8 @@ def run(tier, seed, replay):
     if replay:
         case = json.load(open(replay))["case"]
         cases = [{"tree": case["tree"], "text": case["text"], "extra": False}]
+        if case.get("scoped"):
+            cases = []
         tier_env = ("thorough", 3000, True)
     else:
         cases = gather_cases(tier, seed, ck)
@@ -179,5 +181,17 @@ def run(tier, seed, replay):
                    "want": m["want"], "classes": known_sig(c["tree"]), "cls": sorted(set(m.get("cls", [])))},
                   "{{ %s }} with %s: generated code gives %s, JavaScript gives %s" % (m["text"], m["env"], m["got"], m["want"]))
     evaluate(ck, cases, tier, seed, on_mismatch)
+    if not replay or case.get("scoped"):
+        # free identifiers denote the enclosing template scopes: a sample of the trees again, as a binding inside two nested
+        # lists that both name their item `a` and their index `b` (the inner ones are meant; the data fields a, b differ)
+        rnd = vlib.rng(seed, "c03-scoped")
+        sc = [dict(c, scoped=True) for c in cases if not c.get("lit") and (replay or rnd.random() < (0.12 if tier == "quick" else 0.5))]
+        wrap = ('<block wx:for="{{ zo }}" wx:for-item="a" wx:for-index="b"><block wx:for="{{ zi }}" wx:for-item="a" wx:for-index="b">'
+                '<v a="{{ %s }}"/></block></block>')
+        def on_mismatch_scoped(c, m):
+            ck.report({"sig": "value", "tree": c["tree"], "text": c["text"], "env": m["env"], "got": m["got"], "scoped": True,
+                       "want": m["want"], "classes": known_sig(c["tree"]), "cls": sorted(set(m.get("cls", [])))},
+                      "{{ %s }} inside two nested lists with %s: generated code gives %s, JavaScript gives %s" % (m["text"], m["env"], m["got"], m["want"]))
+        evaluate(ck, sc, tier, seed + 7, on_mismatch_scoped, template_of=lambda c: wrap % c["text"], count_nontrivial=False)
     ck.exhaustive = (tier != "quick")
     return ck.finish()
